@@ -4,9 +4,39 @@ from props.lane_common import *
 from props.C02 import steer_f1
 PROP = "C04"
 
+def apply_on_queue(v, seed, tier):
+    """The quantifier's 'including dispatch_apply on the queue': invocations of a dispatch_apply aimed at a custom
+    concurrent queue hold reader width, so they must never overlap a barrier item of that queue.  The apply driver of
+    C10 runs a writer thread (barrier_sync / barrier_async) next to the applies; here its barrier oracle, hangs and
+    crashes are C04's verdict (everything else it checks belongs to C10)."""
+    drv = build_driver("drv_apply")
+    d = rundir(PROP)
+    n = 2 if tier == "quick" else 10
+    seen = 0
+    for i in range(n):
+        s = seed * 1000 + 700 + i
+        tr = os.path.join(d, "apply_%d.ndjson" % i)
+        rc, out, err = sh([drv, tr, str(s), str(2 + i % 2), "14", "64"], timeout=400)
+        if rc == 124:
+            raise Broken("apply driver timed out (seed %d)" % s)
+        fails = re.findall(r"ORACLE-FAIL C10 (.*)", err)
+        bar = [f for f in fails if "barrier" in f]
+        if bar or rc in (70, 71):
+            what = "; ".join(bar[:3]) or {70: "crash inside libdispatch", 71: "hang: dispatch_apply or a barrier behind it never returned"}[rc]
+            pth = save_replay(PROP, "apply_fail_seed%d.ndjson" % s, src=tr) if os.path.exists(tr) else tr
+            v.violation("dispatch_apply on a concurrent queue vs barrier items (driver seed %d): %s" % (s, what), pth)
+        elif rc not in (0, 2):
+            raise Broken("apply driver failed rc=%d: %s" % (rc, err[-500:]))
+        else:
+            if os.path.exists(tr):
+                seen += sum(1 for x in open(tr) if x.startswith('{"e":"Start"'))
+            v.traces += 1
+    v.notes["apply_invocations_observed_next_to_barriers"] = seen
+
+
 def run(tier, seed):
     v = Verdict(PROP, tier, seed)
-    v.assumptions = ["TLC bounds: width 2, 2 clients x 2 workers, 3-4 items; dispatch_apply on the queue is covered by C10",
+    v.assumptions = ["TLC bounds: width 2, 2 clients x 2 workers, 3-4 items; dispatch_apply on the queue: Apply.tla's BarrierExcl (C10's models) + the apply driver's barrier oracle run here",
                      "real queues narrowed to width 2/3 with dispatch_queue_set_width so the model's arithmetic is exercised"]
     run_models(v, PROP, ["Q2b"] if tier == "quick" else ["Q2b", "Q2m", "Q2q", "Q2"], timeout=3000)
     run_mutants(v, PROP, [("Q2q", "upgrade_ignores_readers")])
@@ -18,6 +48,7 @@ def run(tier, seed):
                  dict(W=0, pp=1, execs=8, ops=40, perturb=2, nt=4), dict(W=2, pp=1, susp=1, execs=6, ops=30, perturb=2)]
     drive(v, PROP, seed, runs, tier)
     steer_f1(v, PROP)
+    apply_on_queue(v, seed, tier)
     return v.finish()
 
 def replay(path, seed):
